@@ -87,6 +87,12 @@ def cases(tier, seed):
                        "reload": rl, "policy": pol,
                        # (an override by a falsy value counts as well)
                        "sowconst": {"k": 5 if (n + rl) % 2 else 0}}
+                # ... given for an earlier, complete round through the same
+                # Crop object only: this round runs with the stored constant
+                yield {"desc": desc, "farmer": far, "kind": kind, "n": n,
+                       "mode": mode, "req": req, "shuffle": shuffle,
+                       "reload": rl, "policy": pol, "preround": 1,
+                       "preconst": {"k": 9}}
 
 
     # crops of 10+ batches (two-digit ids), also reaped with wait=True
@@ -255,12 +261,15 @@ def check_case(case):
                                 for a, v in list(combos)[::-1]})
         return r
 
-    def direct(farmer, overwrite=None, dcombos=dcombos, dcases=dcases):
+    def direct(farmer, overwrite=None, dcombos=dcombos, dcases=dcases,
+               consts=None):
         if far == "sampler":
             return farmer.sample_combos(n, verbosity=0)
         kw = dict(verbosity=0)
         if case.get("sowconst"):
             kw["constants"] = dict(case["sowconst"])
+        if consts:
+            kw["constants"] = dict(consts)
         if far == "runner-df":
             kw["to_df"] = True
         if far.startswith("harv"):
@@ -322,7 +331,8 @@ def check_case(case):
             pcases = [tuple(x + 50 for x in c) for c in dcases]
         builtins._xv_draws = {}
         if pre == 1:
-            direct(twin, dcombos=pcombos, dcases=pcases)
+            direct(twin, dcombos=pcombos, dcases=pcases,
+                   consts=case.get("preconst"))
         # (pre == 2: the earlier round is sown and grown but never reaped -
         # its results are still lying there when the crop is sown again)
         twin_draws = dict(builtins._xv_draws)
@@ -371,13 +381,16 @@ def check_case(case):
             if far == "sampler":
                 crop.sow_samples(n, verbosity=0)
             elif kind == "grid":
-                crop.sow_combos(pcombos, shuffle=True, verbosity=0)
+                crop.sow_combos(pcombos, shuffle=True, verbosity=0,
+                                constants=case.get("preconst"))
             elif kind == "mix":
                 crop.sow_combos(pcombos, cases=[dict(zip(fn_args, c))
                                                 for c in pcases],
-                                shuffle=True, verbosity=0)
+                                shuffle=True, verbosity=0,
+                                constants=case.get("preconst"))
             else:
-                crop.sow_cases(fn_args, pcases, verbosity=0)
+                crop.sow_cases(fn_args, pcases, verbosity=0,
+                               constants=case.get("preconst"))
             crop.grow_missing(verbosity=0)
             if pre == 2:
                 pass
